@@ -74,7 +74,8 @@ pub fn ids(idmap: u8, n: usize) -> Vec<u32> {
         0 => [1, 118, 200, 5, 400, 707, 12823, 3000],
         1 => [50, 40, 30, 20, 10, 60, 70, 5],
         2 => [30, 10, 9_999_999, 20, 40, 9_999_998, 2, 50],
-        _ => [7, 3, 11, 2, 5, 13, 1, 17],
+        // id 1 (the usual root id) on an inner node
+        _ => [7, 1, 11, 2, 5, 13, 3, 17],
     };
     all[..n].to_vec()
 }
@@ -147,6 +148,15 @@ fn node_order(n: usize, order: u8) -> Vec<usize> {
     v
 }
 
+/// record names; gene 9 (only ever added without terms) is unnamed: the shortest possible gene record
+pub fn rec_name(kind: usize, r: u32) -> String {
+    match kind {
+        0 if r == 9 => String::new(),
+        0 => format!("G{r}"),
+        1 => format!("O{r}"),
+        _ => format!("R{r}"),
+    }
+}
 pub fn name_of(node: usize) -> String {
     match node {
         // over-long name whose byte 255 falls inside a two-byte character
@@ -194,7 +204,7 @@ pub fn build_opts(c: &Case, defaults: bool, dup: bool) -> Result<Ontology, Strin
     for &(k, r, d) in &c.facts {
         if d == NO_TERM {
             match k {
-                0 => b.add_gene(&format!("G{r}"), GeneId::from(r)),
+                0 => b.add_gene(&rec_name(0, r), GeneId::from(r)),
                 1 => {
                     b.add_omim_disease(&format!("O{r}"), OmimDiseaseId::from(r));
                 }
@@ -206,7 +216,7 @@ pub fn build_opts(c: &Case, defaults: bool, dup: bool) -> Result<Ontology, Strin
         }
         let t: HpoTermId = m.ids[d as usize].into();
         let res = match k {
-            0 => b.annotate_gene(GeneId::from(r), &format!("G{r}"), t),
+            0 => b.annotate_gene(GeneId::from(r), &rec_name(0, r), t),
             1 => b.annotate_omim_disease(OmimDiseaseId::from(r), &format!("O{r}"), t),
             _ => b.annotate_orpha_disease(OrphaDiseaseId::from(r), &format!("R{r}"), t),
         };
@@ -301,6 +311,28 @@ pub fn check_c01(c: &Case) -> Check {
 pub fn check_c02(c: &Case) -> Check {
     let m = Model::new(c);
     let ont = build(c, false)?;
+    check_c02_on(&m, &ont).map_err(|e| format!("Builder path: {e}"))?;
+    if c.idmap == 0 && c.n >= 2 && c.edges & 1 == 1 {
+        // binary paths: the crate's own writer + reader, and the independent v3 / v2 / v1 encoder + reader
+        let o = build(c, true)?;
+        let o2 = Ontology::from_bytes(&o.as_bytes()).map_err(|e| format!("from_bytes(as_bytes()) failed: {e}"))?;
+        check_c02_on(&m, &o2).map_err(|e| format!("as_bytes -> from_bytes path: {e}"))?;
+        for version in [3u8, 2, 1] {
+            let mut cv = c.clone();
+            if version < 3 {
+                cv.facts.retain(|f| f.0 != 2);
+            }
+            let mv = Model::new(&cv);
+            let enc = Enc { version, reverse: c.order & 1 == 1, flags: vec![(false, 0); c.n], rename_term: None, rename_rec: None };
+            match load(&encode(&cv, &enc)) {
+                Ok(Ok(o3)) => check_c02_on(&mv, &o3).map_err(|e| format!("binary v{version} path: {e}"))?,
+                _ => return Err(format!("independently encoded v{version} file does not load")),
+            }
+        }
+    }
+    Ok(())
+}
+fn check_c02_on(m: &Model, ont: &Ontology) -> Check {
     for t in 0..m.n {
         let h = ont.hpo(m.ids[t]).ok_or("term missing")?;
         let g: BTreeSet<u32> = h.gene_ids().iter().map(|x| x.as_u32()).collect();
@@ -400,13 +432,13 @@ fn check_c10_with(c: &Case, dup: bool) -> Check {
         }
     }
     for (r, _) in &m.recs[0] {
-        let g = ont.gene_by_name(&format!("G{r}")).ok_or("gene_by_name misses a gene")?;
+        let g = ont.gene_by_name(&rec_name(0, *r)).ok_or("gene_by_name misses a gene")?;
         expect("gene_by_name", g.id().as_u32(), *r)?;
     }
     for (r, _) in &m.recs[0] {
         // the symbol is matched exactly: case variants, prefixes and extensions name no gene
-        for q in [format!("g{r}"), format!("G{r} "), "G".to_string(), format!("G{r}0")] {
-            if !m.recs[0].keys().any(|x| format!("G{x}") == q) {
+        for q in [format!("g{r}"), format!("G{r} "), "G".to_string(), format!("G{r}0"), " ".to_string()] {
+            if !m.recs[0].keys().any(|x| rec_name(0, *x) == q) {
                 if let Some(g) = ont.gene_by_name(&q) {
                     return Err(format!("gene_by_name({q:?}) returns the gene {:?}", g.name()));
                 }
@@ -470,6 +502,28 @@ fn check_group_algebra(a: &BTreeSet<u32>, b: &BTreeSet<u32>) -> Check {
     expect("From<HashSet>", from_hs, a.iter().copied().collect::<Vec<u32>>())?;
     let from_it: Vec<u32> = a.iter().rev().map(|x| HpoTermId::from(*x)).collect::<HpoGroup>().iter().map(|x| x.as_u32()).collect();
     expect("FromIterator", from_it, a.iter().copied().collect::<Vec<u32>>())?;
+    // every constructor, from sequences in ascending / descending / rotated order, with every element repeated
+    let asc: Vec<u32> = a.iter().copied().collect();
+    let mut seqs: Vec<Vec<u32>> = vec![asc.clone(), asc.iter().rev().copied().collect()];
+    seqs.push(asc.iter().flat_map(|x| [*x, *x]).collect());
+    seqs.push(asc.iter().rev().flat_map(|x| [*x, *x]).collect());
+    let mut rot = asc.clone();
+    if !rot.is_empty() {
+        let half = rot.len() / 2;
+        rot.rotate_left(half);
+    }
+    seqs.push(rot.iter().chain(asc.iter()).copied().collect());
+    for sq in seqs {
+        let g1: Vec<u32> = HpoGroup::from(sq.clone()).iter().map(|x| x.as_u32()).collect();
+        expect(&format!("From<Vec<u32>> of {sq:?}"), g1, asc.clone())?;
+        let g2 = HpoGroup::from(sq.iter().map(|x| HpoTermId::from(*x)).collect::<Vec<HpoTermId>>());
+        expect(&format!("From<Vec<HpoTermId>> of {sq:?}"), g2.iter().map(|x| x.as_u32()).collect::<Vec<u32>>(), asc.clone())?;
+        expect(&format!("len of From<Vec<HpoTermId>> of {sq:?}"), g2.len(), asc.len())?;
+        let g3: Vec<u32> = sq.iter().map(|x| HpoTermId::from(*x)).collect::<HpoGroup>().iter().map(|x| x.as_u32()).collect();
+        expect(&format!("FromIterator of {sq:?}"), g3, asc.clone())?;
+        let u: Vec<u32> = (&g2 | &gb).iter().map(|x| x.as_u32()).collect();
+        expect(&format!("From<Vec>({sq:?}) | {b:?}"), u, a.union(b).copied().collect::<Vec<u32>>())?;
+    }
     Ok(())
 }
 
@@ -734,7 +788,7 @@ pub fn check_c15(c: &Case) -> Check {
         for &(k, r, d) in &c.facts {
             if d == NO_TERM {
                 match k {
-                    0 => b.add_gene(&format!("G{r}"), GeneId::from(r)),
+                    0 => b.add_gene(&rec_name(0, r), GeneId::from(r)),
                     1 => {
                         b.add_omim_disease(&format!("O{r}"), OmimDiseaseId::from(r));
                     }
@@ -757,7 +811,7 @@ pub fn check_c15(c: &Case) -> Check {
                 }
             }
             match k {
-                0 => b.annotate_gene(GeneId::from(r), &format!("G{r}"), t),
+                0 => b.annotate_gene(GeneId::from(r), &rec_name(0, r), t),
                 1 => b.annotate_omim_disease(OmimDiseaseId::from(r), &format!("O{r}"), t),
                 _ => b.annotate_orpha_disease(OrphaDiseaseId::from(r), &format!("R{r}"), t),
             }
@@ -970,8 +1024,8 @@ pub fn run_parallel(cs: Vec<Case>, f: fn(&Case) -> Check) -> Result<usize, (Case
 pub fn oracle(prop: &str) -> Option<(fn(&Case) -> Check, &'static [u8], bool)> {
     // (oracle, id maps, with annotation facts)
     Some(match prop {
-        "C01" => (check_c01, &[0, 1, 2], false),
-        "C02" => (check_c02, &[1], true),
+        "C01" => (check_c01, &[0, 1, 2, 3], false),
+        "C02" => (check_c02, &[0, 1], true),
         "C03" => (check_c03, &[1], true),
         "C04" => (check_c04, &[1], true),
         "C05" => (check_c05, &[1], false),
@@ -1246,6 +1300,13 @@ impl Similarity for Asym {
         ((a.id().as_u32() % 97) * 7 + (b.id().as_u32() % 89)) as f32 / 10.0
     }
 }
+/// a user similarity that is never positive (the combiners take maxima: all-negative rows and columns must keep them)
+struct Neg;
+impl Similarity for Neg {
+    fn calculate(&self, a: &HpoTerm, b: &HpoTerm) -> f32 {
+        -(((a.id().as_u32() % 13) * 3 + (b.id().as_u32() % 11) * 5 + 1) as f32) / 8.0
+    }
+}
 struct Sym;
 impl Similarity for Sym {
     fn calculate(&self, a: &HpoTerm, b: &HpoTerm) -> f32 {
@@ -1289,6 +1350,12 @@ pub fn check_c05(c: &Case) -> Check {
                 let got = sa.similarity(&sb, Asym, *comb);
                 if !close(got, exp) {
                     return Err(format!("{comb:?} of sets {:?} x {:?} with an asymmetric similarity = {got}, documented combination gives {exp}", a.iter().map(|&x| m.ids[x]).collect::<Vec<_>>(), b.iter().map(|&x| m.ids[x]).collect::<Vec<_>>()));
+                }
+                let matn: Vec<Vec<f32>> = a.iter().map(|&x| b.iter().map(|&y| Neg.calculate(&ont.hpo(m.ids[x]).unwrap(), &ont.hpo(m.ids[y]).unwrap())).collect()).collect();
+                let expn = combine_expected(&matn, wi);
+                let gotn = sa.similarity(&sb, Neg, *comb);
+                if !close(gotn, expn) {
+                    return Err(format!("{comb:?} of sets {:?} x {:?} with a never-positive similarity = {gotn}, documented combination gives {expn}", a.iter().map(|&x| m.ids[x]).collect::<Vec<_>>(), b.iter().map(|&x| m.ids[x]).collect::<Vec<_>>()));
                 }
                 let cached = sa.similarity(&sb, CachedSimilarity::new(Asym), *comb);
                 if !close(got, cached) {
@@ -1387,8 +1454,10 @@ impl Clone for Enc {
         Enc { version: self.version, reverse: self.reverse, flags: self.flags.clone(), rename_term: self.rename_term, rename_rec: self.rename_rec }
     }
 }
+/// node whose name is empty in the encoded file (rename_term == Some(EMPTY_NAME + node))
+pub const EMPTY_NAME: usize = 1000;
 fn enc_term_name(e: &Enc, t: usize) -> String {
-    if e.rename_term == Some(t) { format!("renamed {t}") } else { name_of(t) }
+    if e.rename_term == Some(EMPTY_NAME + t) { String::new() } else if e.rename_term == Some(t) { format!("renamed {t}") } else { name_of(t) }
 }
 pub fn encode(c: &Case, e: &Enc) -> Vec<u8> {
     let m = Model::new(c);
@@ -1448,7 +1517,7 @@ pub fn encode(c: &Case, e: &Enc) -> Vec<u8> {
         let mut recs: Vec<Vec<u8>> = m.recs[kind]
             .iter()
             .map(|(r, ds)| {
-                let mut name = match kind { 0 => format!("G{r}"), 1 => format!("O{r}"), _ => format!("R{r}") };
+                let mut name = rec_name(kind, *r);
                 if e.rename_rec == Some((kind, *r)) {
                     name += "x";
                 }
@@ -1548,6 +1617,21 @@ pub fn check_c08(c: &Case) -> Check {
             let sweep = c.n < 4
                 || (c.n == 4 && (if th { c.facts.len() != 4 || c.edges % 4 == 3 } else { c.edges % 8 == 7 && c.facts.len() % 2 == 1 }))
                 || (c.n == 5 && th && c.edges % 32 == 31 && c.facts.len() != 4);
+            // the shortest possible term record: an unnamed term as the LAST record of the terms section
+            {
+                let last = if reverse { 0 } else { m.n - 1 };
+                let e2 = Enc { version, reverse, flags: flags.clone(), rename_term: Some(EMPTY_NAME + last), rename_rec: None };
+                match load(&encode(&cv, &e2)) {
+                    Ok(Ok(o)) => {
+                        expect(&format!("v{version}: number of terms of a file whose last term record is unnamed"), o.len(), m.n)?;
+                        let h = o.hpo(m.ids[last]).ok_or(format!("v{version}: the unnamed last term {} is missing after decoding", m.ids[last]))?;
+                        expect(&format!("v{version}: name of the unnamed term"), h.name().to_string(), String::new())?;
+                        let p: BTreeSet<u32> = h.parents().map(|x| x.id().as_u32()).collect();
+                        expect(&format!("v{version}: parents of the unnamed term"), p, m.idset(&m.parents[last]))?;
+                    }
+                    _ => return Err(format!("a valid v{version} file whose last term record is unnamed is rejected")),
+                }
+            }
             if c.order == 0 && !reverse && sweep {
                 // every proper prefix and small extensions must be rejected (error or documented panic), never returned
                 for cut in 0..bytes.len() {
@@ -1614,7 +1698,7 @@ fn variant_facts(v: &Variant) -> Facts {
     let mut recs: [BTreeMap<u32, (String, BTreeSet<u32>)>; 3] = Default::default();
     for kind in 0..3 {
         for (r, ds) in &m.recs[kind] {
-            let mut name = match kind { 0 => format!("G{r}"), 1 => format!("O{r}"), _ => format!("R{r}") };
+            let mut name = rec_name(kind, *r);
             if let Some(e) = &v.enc {
                 if e.rename_rec == Some((kind, *r)) {
                     name += "x";
@@ -1868,7 +1952,11 @@ pub fn check_c06_large(thorough: bool) -> Result<usize, String> {
         }
         let ont = b.calculate_information_content().map_err(|e| format!("{e}"))?.build_minimal();
         // samples: contiguous windows of children [lo, lo+n)
-        let windows: Vec<(u32, u32)> = vec![(2, 1), (2, 5), (2, 38), (4, 3), (nn / 3, 20), (nn / 2, 7), (2, nn - 1), (2, nn - 3), (nn - 10, 10), (12, 171.min(nn - 12))];
+        let mut windows: Vec<(u32, u32)> = vec![(2, 1), (2, 5), (2, 38), (4, 3), (nn / 3, 20), (nn / 2, 7), (2, nn - 1), (2, nn - 3), (nn - 10, 10), (12, 171.min(nn - 12))];
+        // depleted annotations: a large sample that contains only j = 1..3 of the K = N/2 linked terms (k far below the mode)
+        for j in 1..=3u32 {
+            windows.push((nn / 2 + 2 - j, nn / 2 - 2));
+        }
         for (lo, n) in windows {
             if lo < 2 || lo + n > nn + 1 || n == 0 {
                 continue;
